@@ -218,11 +218,14 @@ def correspond(ctx):
                'formula %r: implementation %r' % (c.text, c.impl))
   ctx._c40_bad = [cs[idx[k]] for k in bad]
 
-  bad = ctx.run_cases('eval', IMPORTS, 'c40_eval_ok', eval_cases, shard=120)
+  # first pass: defined by the concrete semantics AND equal to CPython; second pass over the rest tells "not
+  # modelled" (skipped, counted) from "different" (a broken tie)
+  rest = ctx.run_cases('evaldef', IMPORTS, 'fun c => c40_eval_defined c && c40_eval_ok c', eval_cases, shard=120)
+  bad = ctx.run_cases('eval', IMPORTS, 'c40_eval_ok', [eval_cases[k] for k in rest], shard=120)
   for k in bad[:5]:
     ctx.broken('correspondence:Model.Predicate.eval_py (CSem) differs from CPython eval',
-               'formula %r case %s' % (cs[eval_idx[k]].text, eval_cases[k][-300:]))
-  undefined = ctx.run_cases('evaldef', IMPORTS, 'c40_eval_defined', eval_cases, shard=120)
+               'formula %r case %s' % (cs[eval_idx[rest[k]]].text, eval_cases[rest[k]][-300:]))
+  undefined = [k for j, k in enumerate(rest) if j not in set(bad)]
   ctx.log('evaluation cases evaluated')
   ctx.extra['eval_cases'] = {'compared_with_cpython_eval': len(eval_cases) - len(undefined),
                              'not_modelled_by_CSem': len(undefined)}
